@@ -695,6 +695,23 @@ class Origins:
         return O("unknown", k)
 
 
+def const_int(o):
+    """integer value of a constant origin: plain scalar, or a promoted constant in memory (little endian)"""
+    o = strip(o)
+    if isinstance(o, Origin) and o.k == "const":
+        v = o.a[0]
+        if isinstance(v, bool):
+            return int(v)
+        if isinstance(v, int):
+            return v
+        if isinstance(v, str):
+            m = re.match(r"^\{'mem': '([0-9a-f]*)', 'len': (\d+)\}$", v)
+            if m and m.group(1) and int(m.group(2)) <= 16:
+                return int.from_bytes(bytes.fromhex(m.group(1)), "little")
+            m = re.match(r"^0x([0-9a-f]+)$", v)
+    return None
+
+
 def strip(o):
     """peel refs/derefs/casts/copies that do not change identity"""
     while isinstance(o, Origin) and o.k in ("ref", "deref"):
